@@ -124,8 +124,8 @@ theorem commit_touches_only_written (s : St) (k : Key) (h : s.bw k = none) :
     every read returns what the plain-map spec returns and the ledger written by the batch commit
     is the spec's committed map. -/
 theorem cache_refines_map (ledger : Key → Val) (ts : List Tx) :
-    (runTxs (init ledger) ts).2 = (specTxs ⟨ledger, fun _ => none⟩ ts).2 ∧
-    batchCommit (runTxs (init ledger) ts).1 = (specTxs ⟨ledger, fun _ => none⟩ ts).1.c := by
+    (runTxs (init ledger) ts).2 = (specTxs ⟨ledger, fun _ => none, []⟩ ts).2 ∧
+    batchCommit (runTxs (init ledger) ts).1 = (specTxs ⟨ledger, fun _ => none, []⟩ ts).1.c := by
   have gen : ∀ (ts : List Tx) (s : St), Inv s → Fresh s →
       (runTxs s ts).2 = (specTxs (abs s) ts).2 ∧ abs (runTxs s ts).1 = (specTxs (abs s) ts).1 := by
     intro ts
@@ -138,7 +138,7 @@ theorem cache_refines_map (ledger : Key → Val) (ts : List Tx) :
       simp only [runTxs, specTxs]
       exact ⟨by rw [a, a2, b], by rw [b2, b]⟩
   have h0 := gen ts (init ledger) (by intro k v h; simp [init] at h) ⟨fun _ => rfl, rfl⟩
-  have habs : abs (init ledger) = ⟨ledger, fun _ => none⟩ := by
+  have habs : abs (init ledger) = ⟨ledger, fun _ => none, []⟩ := by
     simp only [abs, init]; congr 1
   rw [habs] at h0
   refine ⟨h0.1, ?_⟩
